@@ -67,6 +67,31 @@ def _same(a, b, exact):
         return "max abs difference %.3g" % float(np.nanmax(np.abs(af - bf)))
 
 
+def _scramble(obj, depth=0, seen=None):
+    """multiplies every float array reachable from the fitted attributes of `obj` in place"""
+    seen = set() if seen is None else seen
+    if id(obj) in seen or depth > 4:
+        return
+    seen.add(id(obj))
+    if isinstance(obj, np.ndarray):
+        if obj.dtype.kind == "f" and obj.size and obj.flags.writeable:
+            obj *= 1.5
+            obj += 0.25
+        return
+    if isinstance(obj, (list, tuple)):
+        for v in obj:
+            _scramble(v, depth + 1, seen)
+        return
+    if isinstance(obj, dict):
+        for v in obj.values():
+            _scramble(v, depth + 1, seen)
+        return
+    if hasattr(obj, "__dict__") and not isinstance(obj, type):
+        for k, v in list(vars(obj).items()):
+            if k.endswith("_") or isinstance(v, (list, dict)) or hasattr(v, "get_params"):
+                _scramble(v, depth + 1, seen)
+
+
 def check_rows(case):
     name = case["cls"]
     entry = R.ENTRIES[name]
@@ -134,6 +159,11 @@ def check_rows(case):
             d = _same(full, entry.call(est, meth, Q), True)
             require(d is None, "clone_with_fitted_parameters:original-changed:" + meth, "%s" % d, f2)
             labels.append("clone_fitted:ok")
+            if meth == methods[-1]:
+                # updating the copy's fitted arrays in place must not reach the original (no shared mutable state)
+                _scramble(est3)
+                d = _same(full, entry.call(est, meth, Q), True)
+                require(d is None, "clone_with_fitted_parameters:shares-state:" + meth, "changing the copy's fitted arrays changed the original's answers: %s" % d, f2)
     return Outcome(sorted(set(labels)), nontrivial)
 
 
